@@ -218,3 +218,49 @@ Definition fields_of (p : prog) : list field := map a_field (summ [] p).
 
 Definition well_locked_all (G : guard_map) (p : prog) : bool :=
   forallb (fun f => well_locked G f p) (fields_of p).
+
+(* ------------------------------------------------------------ compressed checks *)
+(* the same checks over duplicate-free summaries (for evaluation speed) *)
+
+Fixpoint dedupb {A : Type} (eqb : A -> A -> bool) (l : list A) : list A :=
+  match l with
+  | [] => []
+  | x :: r => if existsb (eqb x) r then dedupb eqb r else x :: dedupb eqb r
+  end.
+
+Fixpoint held_eqb (a b : held) : bool :=
+  match a, b with
+  | [], [] => true
+  | x :: r, y :: r' => Nat.eqb (fst x) (fst y) && mode_eqb (snd x) (snd y) && held_eqb r r'
+  | _, _ => false
+  end.
+
+Definition acc_eqb (a b : acc) : bool :=
+  Nat.eqb (a_field a) (a_field b) && Bool.eqb (a_write a) (a_write b) &&
+  held_eqb (a_held a) (a_held b).
+
+Definition csumm (p : prog) : list acc := dedupb acc_eqb (summ [] p).
+
+Definition accs_ok_any (xs ys : list acc) : bool :=
+  forallb (fun a => forallb (fun b => acc_ok_any a b) ys) xs.
+
+Definition action_eqb (a b : action) : bool :=
+  match a, b with
+  | Acq l m, Acq l' m' => Nat.eqb l l' && mode_eqb m m'
+  | Rel l m, Rel l' m' => Nat.eqb l l' && mode_eqb m m'
+  | Read f, Read f' => Nat.eqb f f'
+  | Write f, Write f' => Nat.eqb f f'
+  | Atomic f, Atomic f' => Nat.eqb f f'
+  | _, _ => false
+  end.
+
+Fixpoint prog_eqb (p q : prog) : bool :=
+  match p, q with
+  | [], [] => true
+  | a :: r, b :: r' => action_eqb a b && prog_eqb r r'
+  | _, _ => false
+  end.
+
+Definition set_protected_c (S : list prog) : bool :=
+  let D := map csumm (dedupb prog_eqb S) in
+  forallb (fun xs => forallb (accs_ok_any xs) D) D.
